@@ -371,6 +371,22 @@ class ConsumerMdib(mdibbase.MdibBase):
         if mdib_version_group.instance_id != self.instance_id:
             self.instance_id = mdib_version_group.instance_id
 
+    @staticmethod
+    def _check_same_type(
+        report_type: str,
+        old_container: AbstractStateContainer | None,
+        new_container: AbstractStateContainer,
+    ):
+        """Raise ValueError if new_container shall update a container of another type.
+
+        E.g. a state without xsi:type in a report is an instance of the abstract base class; it cannot update the
+        state in mdib.
+        """
+        if old_container is not None and old_container.NODETYPE != new_container.NODETYPE:
+            msg = (f'{report_type}: state "{new_container.DescriptorHandle}" is of type {new_container.NODETYPE}, '
+                   f'expected {old_container.NODETYPE}')
+            raise ValueError(msg)
+
     def _update_from_states_report(
         self,
         report_type: str,
@@ -378,6 +394,14 @@ class ConsumerMdib(mdibbase.MdibBase):
     ) -> dict[str, AbstractStateContainer]:
         """Update mdib with incoming states."""
         states_by_handle = {}
+        # a report is applied completely or not at all: check all states before the first one is changed
+        for report_part in report.ReportPart:
+            for state_container in report_part.values_list:
+                self._check_same_type(
+                    report_type,
+                    self.states.descriptor_handle.get_one(state_container.DescriptorHandle, allow_none=True),
+                    state_container,
+                )
         for report_part in report.ReportPart:
             for state_container in report_part.values_list:
                 src = self.states
@@ -404,6 +428,14 @@ class ConsumerMdib(mdibbase.MdibBase):
     ) -> dict[str, AbstractContextStateContainer]:
         """Update mdib with incoming states."""
         states_by_handle = {}
+        # a report is applied completely or not at all: check all states before the first one is changed
+        for report_part in report.ReportPart:
+            for state_container in report_part.values_list:
+                self._check_same_type(
+                    'context states',
+                    self.context_states.handle.get_one(state_container.Handle, allow_none=True),
+                    state_container,
+                )
         for report_part in report.ReportPart:
             for state_container in report_part.values_list:
                 src = self.context_states
